@@ -136,6 +136,18 @@ SPECS = {
             "PARTIAL: convergence of undo/redo is decided by execution (exhaustive in the small scope), not by a theorem; for objects, text and trees it is refuted (P20)",
         ],
     },
+    "C17": {
+        "corr": ["PubSub"],
+        "engines": [
+            {"name": "pubsub", "race": True, "n": {"quick": 48, "thorough": 400}},
+        ],
+        "explanation": "Theorems on a model whose atomic actions are the critical sections of server/backend/pubsub (Upsert callback, sub.Close, Get, subs.Delete, Delete callback, publisher enqueue, publisher tick, stalled consumer) under arbitrary interleaving with any number of threads: invariant (an object with members is the current map entry and its publisher runs), no lost event (once Subscribe(s) returned, an event whose Publish starts later stays delivered / queued in the open object s belongs to / s closed, through every interleaving in which s has not begun to unsubscribe; one tick delivers it), and the map entry is removed when the last member has gone. Engine, built with the race detector: sequential sessions of whole calls on the real PubSub replayed on the model (ClientIDs and received events after every call), and concurrent stress (4 subscribing/unsubscribing goroutines, 3 publishers, stalled consumers): every (publish, subscription established before it and kept for the delivery bound) pair must be delivered, no panic, no data race, ClientIDs empty at the end.",
+        "assumptions": [
+            "PARTIAL: 'within bounded time' is wall-clock: checked on the implementation with a 350 ms bound (publisher window 100 ms), not proved",
+            "the model abstracts the capacity-1 channel and the 100 ms publish timeout into 'delivery succeeds unless the consumer stalled (AStall)'; mutual exclusion of the critical sections themselves (cmap shard lock, subscription mutex) is what the race detector run checks",
+            "the correspondence compares whole calls (one interleaving per call); finer interleavings of the real code are exercised by the stress stream only",
+        ],
+    },
     "C04": {
         "corr": ["Proto"],
         "engines": [
